@@ -43,15 +43,16 @@ def run(tier, rep):
     cases = msm_corpus.build_all(corp.bundle, "c16", True)
     if quick:
         cases = [c for c in cases if rnd.random() < 0.45]
-    vias = ["ctor", "parse", "reader"]
+    vias = ["ctor", "parse", "reader", "parse0"]
     for n, (ident, shape, pl, enc) in enumerate(cases):
         g = {}
         for opt in OPTS:
-            via = vias[(n + OPTS.index(opt)) % 3]
-            if via == "parse":
+            via = vias[(n + OPTS.index(opt)) % 4]
+            if via in ("parse", "parse0"):
                 from ..decode_rec import frame_of
 
-                rid, _, _ = corp.add(pl, opt, keep_msg=True, via="parse", frame=frame_of(pl), validate=1,
+                # (parse0: validation off - the label option must reach the message on that path too)
+                rid, _, _ = corp.add(pl, opt, keep_msg=True, via="parse", frame=frame_of(pl), validate=0 if via == "parse0" else 1,
                                      ident=ident, shape=shape, via_=via, ncell=enc.ints.get("NCell", 0), msm=True)
             else:
                 rid, _, _ = corp.add(pl, opt, keep_msg=True, via=via, ident=ident, shape=shape, via_=via,
